@@ -446,3 +446,48 @@ def count_paths(cfg, cap=10**9):
         memo[n.id] = t
         return t
     return go(cfg.entry)
+
+
+def follow_helpers(prog, f, step, follow=None, max_depth=3):
+    """Interprocedural version of a dataflow transfer function: at a node whose expression is a call of a helper (a function
+    with a body defined in the same source file or the same class as f - e.g. an extracted static function or private member),
+    the helper's own control-flow graph is explored from the current state with the same transfer function, and the states at
+    its exit replace the single successor state.  follow(call, helper) may restrict which helpers are entered."""
+    from ir import walk_expr
+    cache = {}
+    cfgs = {}
+
+    def helper_of(e):
+        if not isinstance(e, dict) or e.get('k') != 'call' or not e.get('fn'):
+            return None
+        for h in prog.fn(e['fn'], e.get('sig')):
+            if h.get('body') and h is not f and (h.get('file') == f.get('file') or (h.get('clsp') and h.get('clsp') == f.get('clsp'))):
+                if follow is None or follow(e, h):
+                    return h
+        return None
+
+    def make(depth):
+        def step2(nd, st):
+            out = step(nd, st)
+            if out is None or depth >= max_depth or nd.kind != 'ev' or nd.e is None:
+                return out
+            h = helper_of(nd.e)
+            if h is None:
+                return out
+            outs = out if isinstance(out, list) else [out]
+            res = []
+            for o in outs:
+                key = (h.get('id'), h.get('q'), o, depth)
+                if key not in cache:
+                    if h.get('id') not in cfgs:
+                        cfgs[h.get('id')] = CFG(h)
+                    g = cfgs[h['id']]
+                    try:
+                        reached, _ = dataflow(g, o, make(depth + 1))
+                        cache[key] = list(reached.get(g.exit.id, set())) or [o]
+                    except RuntimeError:
+                        cache[key] = [o]
+                res.extend(cache[key])
+            return res
+        return step2
+    return make(0)
